@@ -98,6 +98,24 @@ fn store_case(ctx: &mut Ctx, case: u64, rng: &mut Rng, scratch: &Scratch) {
         let d = rng.below(3);
         let id = docs[d].ns.id();
         tick += 1;
+        // the write secret may also arrive through the store's other entry point, `new_replica`, which
+        // imports it and opens the document (added after seeded change agent-C07-8)
+        if rng.chance(1, 12) {
+            let before = caps[d];
+            let r = store.new_replica(docs[d].ns.clone()).map(|_| ());
+            store.close_replica(id);
+            trace.push(format!("new_replica(secret) for doc{d} (held: {before:?}) -> {}", r.is_ok()));
+            ctx.count("write_secret_through_new_replica", 1);
+            if r.is_err() {
+                ctx.violation(case, "new-replica-with-the-write-secret-failed", json!({"trace": trace}));
+                return;
+            }
+            caps[d] = Cap::Write;
+            if before == Cap::Read {
+                upgraded = true;
+            }
+            continue;
+        }
         match rng.below(9) {
             0 | 1 => {
                 let write = rng.chance(1, 2);
